@@ -77,6 +77,12 @@ def _check_arms(ctx, eng, paths, cv, driver):
     kinds = set()
     for p in paths:
         names = trace_names(p)
+        if p.ghost.get("stat_swallowed"):
+            # a stat of the destination failed and exists()/is_dir() answered "no": nothing may be decided on that
+            (ctx.passed if (p.status == "return" and is_err(p.ret)) else ctx.fail)(
+                "C03/C04/C08/C09: a failed stat of the destination is an error, not 'nothing there' (no overwrite, skipped backup or skipped identity check rests on it)",
+                str(names), **({} if (p.status == "return" and is_err(p.ret)) else {"key": "stat-error-taken-for-absent"}))
+            continue
         rec = [e.args[0] for e in p.trace if e.name == "recv"]
         kind = rec[0] if rec else "?"
         if p.status == "panic":
@@ -240,8 +246,8 @@ def lemma_dispatch_worker(ctx):
     _check_arms(ctx, eng, paths, cv, "dispatch_worker")
     # C20: bounded queue, worker count from the configuration
     for p in paths:
-        if p.status != "return":
-            continue        # panics / bounds are reported by the arm checks above
+        if p.status != "return" or p.ghost.get("stat_swallowed"):
+            continue        # panics / bounds / swallowed stat failures are reported by the arm checks above
         b = [e for e in p.trace if e.name == "pool.build"]
         if not b and is_err(p.ret) and not [e for e in p.trace if e.name in ("recv", "queue_file_blocks", "symlink", "copy_node")]:
             continue        # set-up failed before any work was taken (e.g. a failed limit query): reported, nothing opened
